@@ -61,6 +61,9 @@ def specLoop : Nat → State → State × Outcome
 def specRun (shared : Bool) (script data : List Byte) : State × Outcome :=
   specLoop (script.length + 2) (initState shared script data)
 
+def specRunPipe (inherited : Bool) (script : List Byte) : State × Outcome :=
+  specLoop (script.length + 2) (prepareInput true { initState true script [] with nonblock := inherited })
+
 def specRunFile (script data : List Byte) : State × Outcome :=
   specLoop (script.length + 2) (initStateFile script data)
 
@@ -91,7 +94,7 @@ def checkLog : List Byte → List Iter → Option String
 
 def probeOffsets : List Out → List Nat
   | [] => []
-  | .probe _ _ o :: rest => o :: probeOffsets rest
+  | .probe _ _ o _ :: rest => o :: probeOffsets rest
   | _ :: rest => probeOffsets rest
 
 /-- split a script into the chunks of the given sizes (cyclic) -/
